@@ -110,3 +110,22 @@ Theorem C03_envelope_legacy_refuted :
                 no_patches fix_string fixmode src = Crash site_inline_config.
 Proof. exact lint_string_legacy_refuted. Qed.
 Print Assumptions C03_envelope_legacy_refuted.
+
+(** Assembly of the kernels: if every fix any rule returns is anchored on a positioned segment and
+    is not a "just source edit" (monitored on every real batch), the file has raw slices, and
+    [templated_slice_to_source_slice] (C15) and [apply_fixes] (C12) do not panic, then the fix loop
+    built from [has_template_conflicts], [compute_anchor_edit_info] and the bounded driver returns —
+    in either build profile, whatever the rules' [eval] does (it is inside catch_unwind). *)
+Theorem C03_lint_fix_total_from_invariants :
+  forall Fix Tree shape_of batch_of wrapping tsts raw eval_results apply_fixes version,
+  tsts_ok tsts ->
+  (forall ph pass r t res fx, In res (eval_results ph pass r t) -> In fx res ->
+     fix_inv raw (shape_of fx) /\ is_jse (batch_of fx) = false) ->
+  (forall t fs, ok (apply_fixes t fs)) ->
+  forall fixmode all t,
+  ok (lint_fix Tree version
+        (crawl_c Fix Tree shape_of false wrapping tsts raw eval_results)
+        (apply_c Fix Tree shape_of batch_of false wrapping tsts raw eval_results apply_fixes)
+        fixmode all t).
+Proof. exact lint_fix_total_from_invariants. Qed.
+Print Assumptions C03_lint_fix_total_from_invariants.
